@@ -5,6 +5,13 @@ From J5V.lib Require Import Outcome Json.
 From J5V.model Require Import CodecTypes CodecDecScalar CodecDec CodecDecQuery CodecDecTree.
 From J5V.lib Require Base64.
 From J5V.proofs Require Import CodecDecProofs CodecDecExact CodecDecTreeProofs CodecDecFaults CodecDecStored CodecDecBase64 CodecDecVariants.
+From J5V.model Require CodecDecTime.
+From J5V.proofs Require CodecDecTime.
+From J5V.lib Require Civil Decimal.
+From J5V.proofs Require CodecDecDecimal CodecDecTimeFast.
+From Coq Require Import Permutation.
+From J5V.model Require CodecDecCommute.
+From J5V.proofs Require CodecDecMsgSorted CodecDecReorder CodecDecLenient CodecDecOneofReorder.
 Import ListNotations.
 Local Open Scope N_scope.
 
@@ -369,6 +376,249 @@ Proof.
   eapply VM_member; [reflexivity | reflexivity | split; discriminate | | apply VM_same; apply VM_nil].
   apply V_scalar; [reflexivity | reflexivity | split; discriminate | vm_compute; reflexivity].
 Qed.
+
+(* ------------------------------------------------------------------ member reordering *)
+(* The members of a JSON object can be given in any order: if JSONToProto accepts a document, it accepts
+   every document whose root object has the same members in another order, with the same message; and
+   so a permutation is accepted exactly when the original is.  Schema condition [props_commute] (any two
+   properties of the object: their proto paths part into different fields, neither a oneof sibling of the
+   other; or the sets of fields they can touch are disjoint (exposed oneofs); or they are members of one
+   proto oneof, which never both succeed) is decidable; every correspondence case checks it for all
+   objects and oneofs of the real schemas (env_commute in dec_check). *)
+Theorem C03_reordered_document_same_message : forall orc e root props bs bs' ms ms' rest rest' me me',
+  lookup e root = Some (SObject props) -> CodecDecReorder.props_commute e props ->
+  lex bs = (tokens_of (JObj ms) ++ rest, me) -> lex bs' = (tokens_of (JObj ms') ++ rest', me') ->
+  Permutation ms ms' ->
+  forall m', decode_bytes orc e root bs = Ok m' <-> decode_bytes orc e root bs' = Ok m'.
+Proof. exact CodecDecReorder.reordered_document_iff. Qed.
+Print Assumptions C03_reordered_document_same_message.
+
+(* the same for the members of any object body, from any (sorted) state of the enclosing decode *)
+Theorem C03_reordered_object_same_message : forall orc e d props ms ms' m seen m' f,
+  CodecDecReorder.props_commute e props -> Permutation ms ms' -> CodecDecMsgSorted.wf m ->
+  tr_object orc e f d props ms m seen = Ok m' -> exists f', tr_object orc e f' d props ms' m seen = Ok m'.
+Proof. exact CodecDecReorder.reordered_object. Qed.
+Print Assumptions C03_reordered_object_same_message.
+
+Theorem C03_reorder_condition_decidable : forall e ref props, CodecDecCommute.env_commute e = true ->
+  (lookup e ref = Some (SObject props) \/ lookup e ref = Some (SOneof props)) -> CodecDecReorder.props_commute e props.
+Proof. exact CodecDecReorder.env_commute_sound. Qed.
+Print Assumptions C03_reorder_condition_decidable.
+
+(* explicit nulls: members `"k":null` for any properties of the root object, added anywhere among the
+   members, in any order: accepted exactly when the document without them is, with the same message *)
+Theorem C03_null_padded_reordered_document_same_message :
+  forall orc e root props bs bs' ms ms' nulls rest rest' me me',
+  lookup e root = Some (SObject props) -> CodecDecReorder.props_commute e props ->
+  lex bs = (tokens_of (JObj ms) ++ rest, me) -> lex bs' = (tokens_of (JObj ms') ++ rest', me') ->
+  CodecDecReorder.null_members props nulls -> Permutation (nulls ++ ms) ms' ->
+  forall m', decode_bytes orc e root bs = Ok m' <-> decode_bytes orc e root bs' = Ok m'.
+Proof. exact CodecDecReorder.padded_document_iff. Qed.
+Print Assumptions C03_null_padded_reordered_document_same_message.
+
+(* the same for any object body below the nesting bound *)
+Theorem C03_null_padded_object_same_message : forall orc e d props ms ms' nulls m seen m' f,
+  CodecDecReorder.props_commute e props -> CodecDecReorder.null_members props nulls ->
+  Permutation (nulls ++ ms) ms' -> (max_nesting_depth <? d + 1) = false -> CodecDecMsgSorted.wf m ->
+  tr_object orc e f d props ms m seen = Ok m' -> exists f', tr_object orc e f' d props ms' m seen = Ok m'.
+Proof. exact CodecDecReorder.padded_object. Qed.
+Print Assumptions C03_null_padded_object_same_message.
+
+(* {"i":-7,"r":["a"]} and {"r":["a"],"i":-7} on var_env *)
+Example C03_example_reordered :
+  CodecDecCommute.env_commute var_env = true /\
+  decode_bytes no_oracles var_env [78] [123;34;114;34;58;91;34;97;34;93;44;34;105;34;58;45;55;125]
+  = decode_bytes no_oracles var_env [78] var_doc2.
+Proof. split; vm_compute; reflexivity. Qed.
+
+(* ------------------------------------------------------------------ timestamps *)
+(* time.Parse(time.RFC3339, .) is modelled (model/CodecDecTime.v: Go's general layout parser, which
+   subsumes the strict fast path) and compared with the real function on every timestamp text of the
+   run.  A text is described by its fields: year, month, day, the hour written with two digits or one,
+   minute, second, an optional fraction after '.' or ',', and the zone 'Z' or sign hh:mm.
+   [shape]: the fields fit their digit positions; [in_range]: month 1..12, day 1..days of that month
+   in that year, hour <= 23, minute, second <= 59, zone at most 24:60.
+   - the parser accepts [text f] iff the fields are in range, and returns the instant they denote:
+     (days_from_civil y m d * 86400 + time of day - zone offset, first nine fraction digits as ns);
+   - everything the parser accepts is such a text: any other text is rejected. *)
+Module T := J5V.proofs.CodecDecTime.
+Theorem C03_timestamp_text_reading : forall f, T.shape f ->
+  CodecDecTime.go_time_parse (T.text f) = if T.in_range f then Some (T.instant f, T.nanos f) else None.
+Proof. exact T.time_parse_text. Qed.
+Print Assumptions C03_timestamp_text_reading.
+
+Theorem C03_timestamp_accepted_only_texts : forall s sec ns, CodecDecTime.go_time_parse s = Some (sec, ns) ->
+  exists f, T.shape f /\ T.in_range f = true /\ s = T.text f /\ sec = T.instant f /\ ns = T.nanos f.
+Proof. exact T.time_parse_inv. Qed.
+Print Assumptions C03_timestamp_accepted_only_texts.
+
+(* the field kind, with the oracle of the decoder model being that function: one instant written at
+   any two offsets (or with one-digit hour, ',' fraction, longer fraction with the same first nine
+   digits) is stored as the same Timestamp; out-of-range fields and every other text are rejected *)
+Theorem C03_timestamp_exact : forall orc f, T.time_oracle_is_model orc -> T.shape f -> T.in_range f = true ->
+  scalar_from_go orc KTimestamp (GStr (T.text f)) = Ok (Some (mk_timestamp (T.instant f) (T.nanos f))).
+Proof. exact T.timestamp_reading. Qed.
+Print Assumptions C03_timestamp_exact.
+
+Theorem C03_timestamp_any_offset : forall orc f g, T.time_oracle_is_model orc ->
+  T.shape f -> T.shape g -> T.in_range f = true -> T.in_range g = true ->
+  T.instant f = T.instant g -> T.nanos f = T.nanos g ->
+  scalar_from_go orc KTimestamp (GStr (T.text f)) = scalar_from_go orc KTimestamp (GStr (T.text g)).
+Proof. exact T.timestamp_any_offset. Qed.
+Print Assumptions C03_timestamp_any_offset.
+
+Theorem C03_timestamp_out_of_range_rejected : forall orc f, T.time_oracle_is_model orc ->
+  T.shape f -> T.in_range f = false -> is_err (scalar_from_go orc KTimestamp (GStr (T.text f))) = true.
+Proof. exact T.timestamp_out_of_range_rejected. Qed.
+Print Assumptions C03_timestamp_out_of_range_rejected.
+
+Theorem C03_timestamp_other_text_rejected : forall orc s, T.time_oracle_is_model orc ->
+  (forall f, T.shape f -> T.in_range f = true -> s <> T.text f) ->
+  is_err (scalar_from_go orc KTimestamp (GStr s)) = true.
+Proof. exact T.timestamp_other_text_rejected. Qed.
+Print Assumptions C03_timestamp_other_text_rejected.
+
+(* at document level: the two spellings are variants of each other, so C03_respelled_documents_same_result
+   applies to documents that differ in timestamps at different offsets, at any depth *)
+Theorem C03_timestamp_spellings_are_variants : forall orc e f g, T.time_oracle_is_model orc ->
+  T.shape f -> T.shape g -> T.in_range f = true -> T.in_range g = true ->
+  T.instant f = T.instant g -> T.nanos f = T.nanos g ->
+  variant orc e (FScalar KTimestamp) (JStr (T.text f)) (JStr (T.text g)).
+Proof. exact T.timestamp_variant. Qed.
+Print Assumptions C03_timestamp_spellings_are_variants.
+
+(* "2020-01-01T10:00:00+10:00" is 2020-01-01T00:00:00Z = 1577836800; February 2021 has no 29th *)
+Example C03_example_timestamps :
+  T.text T.ex_offset = [50;48;50;48;45;48;49;45;48;49;84;49;48;58;48;48;58;48;48;43;49;48;58;48;48] /\
+  CodecDecTime.go_time_parse (T.text T.ex_offset) = Some (1577836800%Z, 0%Z) /\
+  CodecDecTime.go_time_parse (T.text T.ex_utc) = Some (1577836800%Z, 0%Z) /\
+  CodecDecTime.go_time_parse (T.text (T.mkT 2021 2 29 false 0 0 0 None None)) = None.
+Proof. repeat split; vm_compute; reflexivity. Qed.
+
+(* ------------------------------------------------------------------ the quantifier in one relation *)
+(* [lenient ty j j'] (proofs/CodecDecLenient.v): j' is obtained from j by ANY COMBINATION, AT ANY DEPTH, of
+   - respelling leaves: two spellings that the field kind's conversion maps to the same result (L_scalar,
+     L_enum: quoted / bare numbers, the four base64 forms, enum prefix, timestamps at any offset, ...),
+   - reordering the members of objects (L_object: a permutation) and of oneof bodies (L_oneof: a permutation
+     with at most one "!type" member),
+   - adding explicit null members for properties of objects (L_object: nulls; for an object without
+     members only below the nesting bound, hence the side condition),
+   through arrays, maps, oneof arms and nested objects (insignificant whitespace is absorbed by the
+   tokenizer: documents are related through their token reading).
+   If JSONToProto accepts a document it accepts every lenient variant of it, with the same message. *)
+Theorem C03_lenient_documents_same_message :
+  forall orc e root props bs bs' ms nulls ms1 ms' rest rest' me me' m',
+  CodecDecLenient.env_ok e -> lookup e root = Some (SObject props) ->
+  lex bs = (tokens_of (JObj ms) ++ rest, me) -> lex bs' = (tokens_of (JObj ms') ++ rest', me') ->
+  CodecDecReorder.null_members props nulls -> (nulls = [] \/ ms <> []) -> Permutation (nulls ++ ms) ms1 ->
+  CodecDecLenient.lenient_members orc e props ms1 ms' ->
+  decode_bytes orc e root bs = Ok m' -> decode_bytes orc e root bs' = Ok m'.
+Proof. exact CodecDecLenient.lenient_document. Qed.
+Print Assumptions C03_lenient_documents_same_message.
+
+(* {"i":"-7","r":["a"]} and {"r":["a"],"r":null,"i":-7}: reordered, a null added, the integer bare *)
+Definition len_props : list property :=
+  [mkProp [105] [6] false false [] (FScalar KInt32); mkProp [114] [2] false false [] (FArray (FScalar KString))].
+Example C03_example_lenient :
+  CodecDecCommute.env_commute var_env = true /\
+  CodecDecReorder.null_members len_props [([114], JNull)] /\
+  Permutation ([([114], JNull)] ++ [([105], JStr [45;55]); ([114], JArr [JStr [97]])])
+              [([114], JArr [JStr [97]]); ([114], JNull); ([105], JStr [45;55])] /\
+  CodecDecLenient.lenient_members no_oracles var_env len_props
+    [([114], JArr [JStr [97]]); ([114], JNull); ([105], JStr [45;55])]
+    [([114], JArr [JStr [97]]); ([114], JNull); ([105], JNum [45;55])] /\
+  lex [123;34;114;34;58;91;34;97;34;93;44;34;114;34;58;110;117;108;108;44;34;105;34;58;45;55;125] = (tokens_of (JObj [([114], JArr [JStr [97]]); ([114], JNull); ([105], JNum [45;55])]) ++ [], false) /\
+  decode_bytes no_oracles var_env [78] [123;34;114;34;58;91;34;97;34;93;44;34;114;34;58;110;117;108;108;44;34;105;34;58;45;55;125] = decode_bytes no_oracles var_env [78] var_doc1.
+Proof.
+  split; [vm_compute; reflexivity|]. split.
+  { constructor; [|constructor]. split; [reflexivity|]. eexists. vm_compute. reflexivity. }
+  split.
+  { cbn [app]. eapply perm_trans; [apply perm_skip; apply perm_swap|apply perm_swap]. }
+  split.
+  { apply CodecDecLenient.LM_same. apply CodecDecLenient.LM_same.
+    eapply CodecDecLenient.LM_member; [reflexivity|reflexivity|split; discriminate| |apply CodecDecLenient.LM_nil].
+    apply CodecDecLenient.L_scalar; [reflexivity|reflexivity|split; discriminate|vm_compute; reflexivity]. }
+  split; vm_compute; reflexivity.
+Qed.
+
+(* the same when the root type is a oneof: the body's members ("!type", the arm key, nulls) in any order,
+   at most one "!type", the arm value a lenient variant *)
+Theorem C03_lenient_oneof_documents_same_message :
+  forall orc e root props bs bs' ms ms1 ms' rest rest' me me' m',
+  CodecDecLenient.env_ok e -> lookup e root = Some (SOneof props) ->
+  lex bs = (tokens_of (JObj ms) ++ rest, me) -> lex bs' = (tokens_of (JObj ms') ++ rest', me') ->
+  Permutation ms ms1 -> (CodecDecOneofReorder.type_count ms <= 1)%nat ->
+  CodecDecLenient.lenient_members orc e props ms1 ms' ->
+  decode_bytes orc e root bs = Ok m' -> decode_bytes orc e root bs' = Ok m'.
+Proof. exact CodecDecLenient.lenient_document_oneof. Qed.
+Print Assumptions C03_lenient_oneof_documents_same_message.
+
+(* a oneof body in any order, from any state *)
+Theorem C03_reordered_oneof_same_message : forall orc e d props ms ms' m seen found c m'' f,
+  CodecDecReorder.props_commute e props -> Permutation ms ms' -> (CodecDecOneofReorder.type_count ms <= 1)%nat ->
+  CodecDecMsgSorted.wf m ->
+  tr_oneof orc e f d props ms m seen found c = Ok m'' ->
+  exists f', tr_oneof orc e f' d props ms' m seen found c = Ok m''.
+Proof. exact CodecDecOneofReorder.reordered_oneof. Qed.
+Print Assumptions C03_reordered_oneof_same_message.
+
+(* the schema condition is the computable check that every correspondence case runs on the real schemas *)
+Theorem C03_lenient_condition_decidable : forall e, CodecDecCommute.env_commute e = true -> CodecDecLenient.env_ok e.
+Proof. exact CodecDecLenient.env_ok_of_check. Qed.
+Print Assumptions C03_lenient_condition_decidable.
+
+(* one instant at two offsets is a lenient pair of leaves (with the modelled time.Parse) *)
+Theorem C03_timestamp_spellings_are_lenient : forall orc e f g, T.time_oracle_is_model orc ->
+  T.shape f -> T.shape g -> T.in_range f = true -> T.in_range g = true ->
+  T.instant f = T.instant g -> T.nanos f = T.nanos g ->
+  CodecDecLenient.lenient orc e (FScalar KTimestamp) (JStr (T.text f)) (JStr (T.text g)).
+Proof. exact CodecDecLenient.timestamp_lenient. Qed.
+Print Assumptions C03_timestamp_spellings_are_lenient.
+
+(* the strict fast path of time.Parse (lib/Civil.v parse_rfc3339, against which the encoder's timestamp
+   text is proved to read back) is subsumed by the modelled parser *)
+Theorem C03_time_fast_path_subsumed : forall s r,
+  Civil.parse_rfc3339 s = Some r -> CodecDecTime.go_time_parse s = Some r.
+Proof. exact CodecDecTimeFast.fast_path_extends. Qed.
+Print Assumptions C03_time_fast_path_subsumed.
+
+(* ------------------------------------------------------------------ decimals *)
+(* decimal.NewFromString / Decimal.String() are modelled by lib/Decimal.v (dec_parse, dec_print: a decimal
+   is mantissa * 10^exponent) and compared with the library on every run.  With the decoder model's
+   decimal oracle being that model: a text is accepted, quoted or bare, iff dec_parse reads it with an
+   exponent within +-1000; what is stored is the canonical text dec_print m e, and that text reads back
+   as a numerically equal decimal — the stored value is exactly the number the member denotes; every
+   other text is rejected. *)
+Module D := J5V.proofs.CodecDecDecimal.
+Theorem C03_decimal_exact : forall orc quoted s c, D.decimal_oracle_is_model orc ->
+  scalar_from_go orc KDecimal (D.dec_goval quoted s) = Ok (Some (mk_decimal c)) ->
+  exists m e b, Decimal.dec_parse s = Some (m, e) /\ c = Decimal.dec_print m e /\
+                Decimal.dec_parse c = Some b /\ Decimal.dec_eq (m, e) b.
+Proof. exact D.decimal_exact. Qed.
+Print Assumptions C03_decimal_exact.
+
+Theorem C03_decimal_accepted : forall orc quoted s m e, D.decimal_oracle_is_model orc ->
+  Decimal.dec_parse s = Some (m, e) -> (Z.abs e <= max_decimal_exponent)%Z ->
+  scalar_from_go orc KDecimal (D.dec_goval quoted s) = Ok (Some (mk_decimal (Decimal.dec_print m e))).
+Proof. exact D.decimal_accepted. Qed.
+Print Assumptions C03_decimal_accepted.
+
+Theorem C03_decimal_invalid_rejected : forall orc quoted s, D.decimal_oracle_is_model orc ->
+  Decimal.dec_parse s = None -> is_err (scalar_from_go orc KDecimal (D.dec_goval quoted s)) = true.
+Proof. exact D.decimal_invalid_rejected. Qed.
+Print Assumptions C03_decimal_invalid_rejected.
+
+Theorem C03_decimal_exponent_rejected : forall orc quoted s m e, D.decimal_oracle_is_model orc ->
+  Decimal.dec_parse s = Some (m, e) -> (max_decimal_exponent < Z.abs e)%Z ->
+  is_err (scalar_from_go orc KDecimal (D.dec_goval quoted s)) = true.
+Proof. exact D.decimal_exponent_rejected. Qed.
+Print Assumptions C03_decimal_exponent_rejected.
+
+(* "1.50" reads as 150 * 10^-2 and is stored as "1.5"; "1.2.3" and "abc" are not decimals *)
+Example C03_example_decimals :
+  Decimal.dec_parse [49;46;53;48] = Some (150%Z, (-2)%Z) /\ Decimal.dec_print 150 (-2) = [49;46;53] /\
+  Decimal.dec_parse [49;46;50;46;51] = None /\ Decimal.dec_parse [97;98;99] = None.
+Proof. repeat split; vm_compute; reflexivity. Qed.
 
 (* ------------------------------------------------------------------ URL query parameters *)
 (* a scalar supplied as the single value of a query parameter is stored exactly as the JSON member
